@@ -19,7 +19,10 @@ fn usage() -> ! {
 }
 
 fn main() {
-    std::panic::set_hook(Box::new(|_| {}));
+    std::panic::set_hook(Box::new(|info| {
+        let s = format!("{info}");
+        props::c14::LAST_PANIC.with(|l| *l.borrow_mut() = s);
+    }));
     let args: Vec<String> = std::env::args().collect();
     if args.len() < 2 {
         usage();
@@ -92,6 +95,8 @@ fn main() {
                     Tier::Thorough => 4 * 3600,
                 };
             }
+            // read by lazily initialised tables (before any worker thread exists)
+            unsafe { std::env::set_var("FROSTSIM_VERIF_DIR", &opt.verif_dir) };
             let code = if args[1] == "run" {
                 run_property(prop, &opt)
             } else {
